@@ -38,7 +38,7 @@ func TestVerif_C20_UnsealThreshold(t *testing.T) {
 			cur = keys
 			rekeyed = true
 		}
-		if err := tc.c.sealInternal(); err != nil {
+		if err := tc.seal(); err != nil {
 			t.Fatalf("harness: seal: %v", err)
 		}
 		supplied := map[int]bool{} // distinct valid current shares since the last reset
